@@ -1,7 +1,9 @@
 """C20 — transparency, Tower readiness contract, listeners only observe: generator and implementation-side monitors.
 
 Header: `stack layers=<outermost,…,innermost> inner=strict|climit|buffer [ready=<script>] [cl=<n>] [lp=<mask>]
-[rec=<ms> recall=1] [lq=<n> lqinner=<plan>] [lqe=<n> lqat=<layer index>]` (see harness/src/mw_stack.rs); `arrive … keep=1` + `release c`:
+[rec=<ms> recall=1] [lq=<n> lqinner=<plan>] [lqe=<n> lqat=<layer index>] [rl=<limit>:<period ms>:<fixed|log|counter>:<timeout ms>] [lpt=<mask>]`
+(see harness/src/mw_stack.rs; `rl`: every `ratelimiter` layer works near its limit — a triggering configuration; `lpt`: the transitions
+on which reconnect's `on_state_change` callback panics); `arrive … keep=1` + `release c`:
 the caller keeps its finished call future. The key of the keyed layers (coalesce, cache) is the tag modulo 1000. Boundary `b<j>` is the outer boundary of layer j (0 = the one the harness drives),
 `b<n>` the boundary of the inner service.
 """
@@ -307,6 +309,81 @@ def gen_callpath_probe(rng):
     return {"header": header, "ops": ops}
 
 
+RL_WINDOWS = ["fixed", "log", "counter"]
+# layers that may surround a rate limiter working near its limit: no racing hedges (every attempt takes a permit, and which
+# attempt is served is the scheduler's choice), nothing that re-issues requests on the limiter's own rejection
+RL_AROUND = ["bulkhead", "circuit", "timelimiter", "timelimiter_nocancel", "fallback", "adaptive", "executor", "chaos", "coalesce",
+             "cache", "retry", "reconnect", "hedge1"]
+
+
+def _rl(rng):
+    period = rng.choice([20, 50])
+    return "rl=%d:%d:%s:%d" % (rng.choice([1, 1, 2, 3]), period, rng.choice(RL_WINDOWS), rng.choice([0, 0, 0, 0, 10, period])), period
+
+
+def gen_rate_window(rng):
+    """a rate limiter working at its limit (`rl=`: 1-3 permits per 20 / 50 ms, all three window types, mostly fail-fast): requests
+    one after the other use the window up, the next ones are rejected (nothing forwarded), and after one, two or three refresh
+    periods the window has rolled over and the limiter is transparent again: the request is forwarded to an instance of the
+    wrapped service that the limiter polled ready for it — whatever the limiter believed while the window was used up. The
+    wrapped service has pending / failing readiness polls, or reserves capacity in `poll_ready` (ConcurrencyLimit, Buffer)."""
+    above = [rng.choice(RL_AROUND) for _ in range(rng.choice([0, 0, 1, 1, 2]))]
+    below = [rng.choice(RL_AROUND) for _ in range(rng.choice([0, 0, 0, 1, 2]))]
+    layers = above + ["ratelimiter"] + below
+    inner = rng.choice(["strict", "strict", "strict", "climit", "buffer"])
+    rl, period = _rl(rng)
+    header = "stack layers=%s inner=%s %s" % (",".join(layers), inner, rl)
+    if inner == "climit":
+        header += " cl=%d" % rng.choice([1, 2, 16])
+    ops, nerr, polls = [], 0, []
+    for c in range(1, rng.randint(4, 8)):
+        steps = _script(rng, rng.choice(["ok", "ok", "ok", "ok", "err2", "err1"]))
+        nerr += sum(1 for x in steps if "err" in x)
+        p = rng.choice([1, 1, 1, 2])
+        polls.append(p)
+        ops.append("arrive %d tag=%d inner=%s%s%s" % (c, 60 + c, ",".join(steps), rng.choice(["", "", " how=held"]),
+                                                     " polls=%d" % p if p > 1 else ""))
+        ops.append("settle")
+        gap = rng.choice([0, 0, 5, period // 2, period, period, period + 5, 2 * period, 2 * period + 5, 3 * period])
+        while gap > 0:
+            ops += ["adv %d" % min(gap, 25), "settle"]
+            gap -= min(gap, 25)
+    if inner == "strict" and rng.random() < 0.5:
+        # pending / failing readiness polls of the wrapped service, some of them aimed at the later requests
+        k = rng.randint(0, sum(polls))
+        header += " ready=" + "r" * k + "".join(rng.choice("rrppe") for _ in range(rng.randint(1, 6)))
+    header += " lp=%d" % rng.choice([0, 0, 0, 2, 5, 7])
+    _drain(ops, layers, nerr)
+    return {"header": header, "ops": ops}
+
+
+def gen_reconnect_callbacks(rng):
+    """reconnect reports through one callback per kind of news (`on_state_change`, `on_reconnect`), not through a listener list:
+    both are observers. Connection failures (`err1`, retried after 5 ms, at most twice) with an `on_state_change` callback that
+    panics on some transitions only (`lpt`: bit 0 Connected->Disconnected, bit 1 Disconnected->Reconnecting, bit 2 ->Connected)
+    and / or a panicking `on_reconnect` (`lp` bit 3): the answers and what EACH callback is told must be those of the twin."""
+    above = [rng.choice(QUIET + ["retry", "cache"]) for _ in range(rng.choice([0, 0, 1, 2]))]
+    below = [rng.choice(QUIET) for _ in range(rng.choice([0, 0, 1]))]
+    layers = above + ["reconnect"] + below
+    inner = rng.choice(["strict", "strict", "climit"])
+    header = "stack layers=%s inner=%s" % (",".join(layers), inner)
+    if inner == "climit":
+        header += " cl=%d" % rng.choice([1, 2, 16])
+    header += " lp=%d lpt=%d" % (rng.choice([1, 2, 4, 5, 7, 8, 9, 15]), rng.choice([1, 2, 2, 3, 4, 5, 6, 7]))
+    ops, nerr = [], 0
+    for c in range(1, rng.randint(2, 4)):
+        steps = ["%d:err1" % rng.choice([0, 0, 5]) for _ in range(rng.choice([0, 1, 1, 2, 3]))] + _script(rng)
+        nerr += sum(1 for x in steps if "err" in x)
+        ops.append("arrive %d tag=%d inner=%s%s" % (c, 70 + c, ",".join(steps), rng.choice(["", "", " how=held"])))
+        ops.append("settle")
+        for _ in range(2 * len(steps) + 1):
+            ops += ["adv 5", "settle"]
+        if rng.random() < 0.3:
+            ops.append("probe listeners")
+    _drain(ops, layers, nerr)
+    return {"header": header, "ops": ops}
+
+
 def gen(rng, tier):
     r0 = rng.random()
     if 0.17 <= r0 < 0.24:
@@ -315,6 +392,10 @@ def gen(rng, tier):
         return gen_same_key_kept(rng)
     if 0.30 <= r0 < 0.36:
         return gen_callpath_probe(rng)
+    if 0.36 <= r0 < 0.41:
+        return gen_rate_window(rng)
+    if 0.41 <= r0 < 0.44:
+        return gen_reconnect_callbacks(rng)
     if r0 < 0.04:
         return gen_cache_same_key(rng)
     if r0 < 0.08:
@@ -402,6 +483,13 @@ def gen(rng, tier):
         header += " rec=%d" % rng.choice([3, 8, 8, 20, 30])
         if rng.random() < 0.4:
             header += " recall=1"
+    if "ratelimiter" in layers and not any(l in HEDGES_THAT_REPOLL for l in layers) and rng.random() < 0.3:
+        # the rate limiter near its limit (a triggering configuration, see gen_rate_window)
+        header += " " + _rl(rng)[0]
+    if "reconnect" in layers and rng.random() < 0.5:
+        # reconnect's two callbacks: `on_state_change` panics on some transitions only, `on_reconnect` (lp bit 3) panics
+        lp |= rng.choice([0, 8, 8])
+        header += " lpt=%d" % rng.randint(1, 7)
     header += " lp=%d" % lp
     _drain(ops, layers, nerr)
     return {"header": header, "ops": ops}
@@ -562,6 +650,47 @@ def cache_hit_hoards(cfg, layers, reqs, lines, meta):
     return any(rq["how"] == "held" for rq in reqs.values()) and bool(keyed_interference(layers, reqs, lines, meta))
 
 
+def _rl_cfg(cfg):
+    """`rl=<limit>:<period ms>:<window>:<timeout ms>` -> (limit, period, window, timeout) or None (the limiter is never at its limit)"""
+    if "rl" not in cfg:
+        return None
+    p = cfg["rl"].split(":")
+    num = lambda i, d: int(p[i]) if len(p) > i and p[i].isdigit() else d
+    return num(0, 100000), num(1, 1000), (p[2] if len(p) > 2 else "fixed"), num(3, 0)
+
+
+def rate_limiter_decisions(lines):
+    """the decisions the rate limiters report through their listeners: [(line index, t, layer, 'acquired'|'rejected')]"""
+    out = []
+    for i, l in enumerate(lines):
+        t, w = tparse(l)
+        if len(w) >= 3 and w[0] == "rl" and w[1].isdigit():
+            out.append((i, t, int(w[1]), w[2]))
+    return out
+
+
+def unjustified_rejection(cfg, lines):
+    """The rate limiter's protective condition: the permits of the current window are used up. Necessary for that, whatever the
+    window type: at least `limit` permits were handed out by this limiter within the last period (fixed window: since the
+    window started; sliding log: entries younger than the period; sliding counter: the current bucket, younger than one period, plus
+    the previous one, which began less than two periods before it) — so a rejection without them is a rejection of an
+    untriggered limiter. (Whether every rejection that IS due happens is C02's business.)"""
+    rl = _rl_cfg(cfg)
+    if rl is None:
+        return None
+    limit, period, window, _ = rl
+    span = 3 * period if window == "counter" else period
+    dec = rate_limiter_decisions(lines)
+    for i, t, j, what in dec:
+        if what != "rejected":
+            continue
+        recent = sum(1 for _, t2, j2, w2 in dec if j2 == j and w2 == "acquired" and t - span < t2 <= t)
+        if recent < limit:
+            return ("line %d: the rate limiter (layer %d, %d permits per %d ms, %s window) rejected a request at t=%d although it had handed out only "
+                    "%d permits in the %d ms before: its protective condition was not triggered" % (i, j, limit, period, window, t, recent, span))
+    return None
+
+
 def _results(lines):
     res = {}
     for l in lines:
@@ -710,11 +839,26 @@ def mon_transparent(case, lines, meta):
             if not m or m.group(2) != tag or m.group(1) not in [k for _, k in calls.get(tag, [])]:
                 return "probe call %s (tag %s) was answered %s, which is not the response of one of its inner calls %s" % (
                     w[1], tag, w[2], [k for _, k in calls.get(tag, [])])
+    bad = unjustified_rejection(kvs(case["header"]), lines)
+    if bad:
+        return bad
+    rl_small = _rl_cfg(kvs(case["header"])) is not None and "ratelimiter" in layers
     keyed = keyed_interference(layers, reqs, lines, meta)
     for c, rq in reqs.items():
         r = res.get(c)
         mine = calls.get(rq["tag"], [])
         if r is None or rq["dropped"]:
+            continue
+        if rl_small and "ratelimiter!limited" in r and c not in keyed:
+            # rejected by a rate limiter whose window is used up (justified: see above): a triggered layer. What is left of
+            # transparency: the request was not forwarded (unless an earlier attempt of a retry / reconnect was), and every
+            # layer above the limiter passes the rejection on like any error of its inner service
+            if mine and not triggered(layers, rq):
+                return "request %s (tag %s) was rejected by the rate limiter (%s) and yet reached the inner service (%d calls)" % (c, rq["tag"], r, len(mine))
+            if layers.count("ratelimiter") == 1 and not triggered(layers, rq):
+                exp = "err:" + chain(layers[:layers.index("ratelimiter")], "ratelimiter!limited", True)
+                if r != exp:
+                    return "request %s (tag %s) was rejected by the rate limiter: expected %s, got %s" % (c, rq["tag"], exp, r)
             continue
         if c in keyed:
             # a keyed layer may legitimately answer with the response of a same-key request's call (coalesced / cached)
@@ -865,6 +1009,11 @@ def mon_listeners(case, lines, meta):
                 tw = None
             if tw is not None and tw != w[2]:
                 return "line %d: listener counts %s with panicking listeners, %s without" % (i, w[2], tw)
+            k = kvs(l)
+            if "cb" in k and "twincb" in k and k["cb"] != k["twincb"]:
+                return ("line %d: reconnect's `on_reconnect` callback was told %s reconnect attempts, %s in the twin stack whose callbacks do not "
+                        "panic (lp=%s, `on_state_change` panics on transitions lpt=%s): a panicking callback kept another observer from "
+                        "receiving an event" % (i, k["cb"], k["twincb"], cfg.get("lp"), cfg.get("lpt", "7")))
     return None
 
 
@@ -888,9 +1037,32 @@ def transitions(case, lines, meta=None):
         tags.append("inner-recovery")
         if cfg.get("recall") == "1":
             tags.append("inner-recovery-all-instances")
+    rl = _rl_cfg(cfg) if "ratelimiter" in layers else None
+    if rl:
+        tags += ["rl-near-limit", "rl-window-" + rl[2]]
+        if rl[3] > 0:
+            tags.append("rl-waits")
+        dec = rate_limiter_decisions(lines)
+        for i, t, j, what in dec:
+            if what == "rejected":
+                tags.append("rl-rejected")
+            elif any(w2 == "rejected" and j2 == j and i2 < i for i2, _, j2, w2 in dec):
+                tags += ["rl-forwards-after-rollover", "rl-forwards-after-rollover-" + rl[2]]
+    if "reconnect" in layers:
+        lp, lpt = int(cfg.get("lp", "0")), int(cfg.get("lpt", "7"))
+        for l in lines:
+            k = kvs(l)
+            if " probe listeners " in " " + l and k.get("cb", "0") != "0":
+                tags.append("reconnect-attempt-reported")
+                if lp & 7 and lpt & 2:
+                    tags.append("state-change-callback-panics-on-reconnecting")
+                if lp & 7 and not lpt & 2:
+                    tags.append("state-change-callback-panics-on-other-transitions")
+                if lp & 8:
+                    tags.append("on-reconnect-callback-panics")
     if cfg.get("lp", "0") != "0":
         tags.append("listener-panic")
-    if cfg.get("lp") == "7":
+    if cfg.get("lp") in ("7", "15"):
         tags.append("all-listeners-panic")
     n = len(layers)
     ncalls = {}
@@ -1007,7 +1179,11 @@ ALL_TR = (["layer-" + l for l in VARIANTS] + ["mw-" + l for l in THIRTEEN] +
            "same-key-joined-or-cached-coalesce", "same-key-joined-or-cached-cache", "same-key-forwarded-coalesce", "same-key-forwarded-cache",
            "same-key-after-kept-finished-coalesce", "same-key-after-kept-finished-cache", "callpath-probe"] +
           ["listener-probe-over-" + l for l in ("bulkhead", "circuit", "timelimiter", "retry", "fallback", "hedge")] +
-          ["callpath-probe-in-" + l for l in ("chaos", "bulkhead", "ratelimiter", "circuit", "retry", "hedge", "timelimiter", "fallback")])
+          ["callpath-probe-in-" + l for l in ("chaos", "bulkhead", "ratelimiter", "circuit", "retry", "hedge", "timelimiter", "fallback")] +
+          ["rl-near-limit", "rl-waits", "rl-rejected", "rl-forwards-after-rollover"] + ["rl-window-" + w for w in RL_WINDOWS] +
+          ["rl-forwards-after-rollover-" + w for w in RL_WINDOWS] +
+          ["reconnect-attempt-reported", "state-change-callback-panics-on-reconnecting", "state-change-callback-panics-on-other-transitions",
+           "on-reconnect-callback-panics"])
 
 LEVEL_NOTE = ("Trusted: Lean kernel; the transcription of each layer's call path as a transducer between boundary event streams in "
               "TR.Model.Stack (validated only by the sampled correspondence check); tower's BoxCloneService / MapErr adapters and the Tap "
@@ -1059,7 +1235,11 @@ SPECS = {
                 "one after the other and overlapping; a listener of ANY event of ANY one layer (admission, rejection, retry, pass-through, attempt "
                 "started, and below the top also completion) that sends 1-3 requests through the whole stack from inside the listener (must come "
                 "back; outer answers and listener counts as in the twin); a hung case is cut off by the harness's wall-clock watchdog and reported "
-                "as a failing input; distinct = distinct implementation log; "
+                "as a failing input; a rate limiter working AT its limit (rl=: 1-3 permits per 20/50 ms, fixed / sliding-log / sliding-counter window, "
+                "fail-fast or waiting) with sequential requests that use the window up, are rejected, and follow after 0-3 refresh periods, over pending / "
+                "failing readiness polls and reserving inner services (a rejection needs `limit` permits handed out within the window span); reconnect "
+                "with BOTH callbacks registered, `on_state_change` panicking on a subset of the transitions (lpt) and / or a panicking `on_reconnect` "
+                "(lp bit 3), what each callback is told compared with the twin; distinct = distinct implementation log; "
                 "non-trivial = a stack of >= 2 layers or a retry/hedge/readiness-pending/readiness-error/held-instance/listener-panic event",
         "trusted": ["transcription of the layers' call paths in TR.Model.Stack (sampled by the correspondence check)",
                     "harness: Tap at every boundary, strict inner service, twin stack, clock_gettime interposition, manual poller", "python monitors"],
@@ -1079,7 +1259,13 @@ SPECS = {
                       "the poll that completes a leader frees its key in that step, a later same-key request is forwarded as a call of its own - whether the "
                       "finished future is kept or not is not even expressible; {reentrant_listener_only_observes,emit_under_lock_hangs,"
                       "chaos_emit_inside_rng_lock_violates}: on every call path that never emits while holding its non-reentrant lock a listener that sends a "
-                      "request through the service changes nothing, and every path that does emit under the lock hangs with such a listener. The model is tied to the code by replaying the boundary events the real stacks produce (Tap at every boundary) through it: "
+                      "request through the service changes nothing, and every path that does emit under the lock hangs with such a listener. "
+                      "{ready_answer_needs_inner_ready,no_ready_answer_without_inner_poll,ready_without_inner_poll_rejected}: in every state of every layer a "
+                      "ready answer of poll_ready needs the held inner instance to have just answered ready, and after any outer event (a call the layer "
+                      "rejected itself included) it needs a new inner poll - what a layer believes about its own window is no substitute. "
+                      "{every_callback_told,shared_guard_stops_at_first_panic,shared_guard_violates}: with one unwind guard per callback every callback that a "
+                      "moment of the call path is reported to is told, for any callbacks and any panicking subset; under a shared guard the first panic is the "
+                      "last invocation. The model is tied to the code by replaying the boundary events the real stacks produce (Tap at every boundary) through it: "
                       "an event the idiom cannot perform is a disagreement. Exactly-once forwarding, result wrappers, readiness errors surfacing and the "
                       "twin-stack listener comparison (answers, listener counts, and the probe calls made by a re-entrant completion listener vs. right "
                       "after the step) are decided by implementation-side monitors (not theorems).",
